@@ -181,10 +181,15 @@ Prelude == <<SFn(F, <<>>, FALSE, <<>>)>>
 Build(i, v) == Entry(i, v).pre \o <<SDecl(EVar(v), Entry(i, v).e)>>
 
 \* parameter tuples <<family, i, j>>
+\* a pool value against an operand written as a literal (an interpreter may treat
+\* `x == []` specially), in both orders, with == and !=
+LitOperands == <<EList(<<>>), EObj(<<>>), EStr(<<>>), EInt(0), ENull, EBool(TRUE), EList(<<EInt(0)>>),
+                 EObj(<<Pair(EStr(KA), EInt(0))>>), EStr(<<97>>), EList(<<EList(<<>>)>>)>>
 C10Params ==
     { <<"eq", i, j>> : i \in 1 .. NEntries, j \in 1 .. NEntries }
     \cup { <<"ref", i, j>> : i \in ContainerEntries \cup {29, 32}, j \in ContainerEntries \cup {29, 30, 32, 4} }
     \cup { <<"alias", i, 0>> : i \in 1 .. NEntries }
+    \cup { <<"lit", i, l * 10 + f>> : i \in 1 .. NEntries, l \in 1 .. Len(LitOperands), f \in 1 .. 4 }
     \cup { <<"nested", i, j>> : i \in {8, 9, 16, 18, 20, 29, 35}, j \in {8, 9, 10, 15, 18, 20, 7, 34} }
 
 C10ProgOf(p) ==
@@ -196,6 +201,13 @@ C10ProgOf(p) ==
             Prelude \o Build(p[2], A) \o Build(p[3], Bv)
             \o <<SPrint(EBin("===", EVar(A), EVar(Bv))), SPrint(EBin("!==", EVar(A), EVar(Bv))),
                  SPrint(EBin("===", EVar(Bv), EVar(A))), SPrint(EBin("===", EVar(A), EVar(A)))>>
+      [] p[1] = "lit" ->
+            LET lit == LitOperands[p[3] \div 10]
+                f == p[3] - 10 * (p[3] \div 10) IN
+            Prelude \o Build(p[2], A)
+            \o <<SPrint(CASE f = 1 -> EBin("==", EVar(A), lit) [] f = 2 -> EBin("==", lit, EVar(A))
+                          [] f = 3 -> EBin("!=", EVar(A), lit) [] f = 4 -> EBin("!=", lit, EVar(A))),
+                 SPrint(EVar(A))>>
       [] p[1] = "alias" ->
             Prelude \o Build(p[2], A) \o <<SDecl(EVar(Bv), EVar(A))>>
             \o <<SPrint(EBin("==", EVar(A), EVar(Bv))), SPrint(EBin("===", EVar(A), EVar(Bv))),
